@@ -113,6 +113,8 @@ def c01_steps(tier, seed):
         miri("halflock-miri", "m_halflock", [], 48 if q else 2048, timeout=240 if q else 3000),
         miri("registry-miri", "m_registry", ["--shape", seed], 16 if q else 512, timeout=400 if q else 3600),
         native("gate-held-reader", ["w_live", "--mode", "gate", "--trials", 300 if q else 5000, "--seed", seed + 17]),
+        native("reg-owner-istep", ["w_reg", "--mode", "owner", "--phase", "istep", "--killers", 0, "--rounds", 6 if q else 120, "--ops", 80, "--seed", seed + 23], timeout=300 if q else 2400),
+        native("owner-drop-after-concurrent-add", ["w_instance", "--scripts", 0, "--concurrent", 40 if q else 600, "--seed", seed + 29]),
     ]
     if not q:
         st += [miri("registry-miri-%d" % sh, "m_registry", ["--shape", seed + sh], 128, timeout=3600) for sh in range(1, 5)]
@@ -133,7 +135,10 @@ PLANS["C01"] = {
         "threads are bombarded with real thread-directed signals, each checked by the canary monitor after it returned, plus "
         "half-lock updates under Miri/native readers; distinct non-trivial = distinct (reader-site|writer-site) overlap pairs "
         "and distinct sites at which a delivery nested on the mutating thread, observed by the hook, plus distinct Miri schedule "
-        "fingerprints (sequence of versions each reader saw)",
+        "fingerprints (sequence of versions each reader saw); instruction-step phase: the owner single-steps itself (x86 trap flag) "
+        "from a writer-side hook site of its register/unregister/unregister_signal call and a real delivery of its signal is nested "
+        "at the k-th instruction (istep_fired deliveries at istep_distinct_points distinct instruction addresses); owner drop: two "
+        "threads add the same signal to one iterator instance, the instance is dropped, none of its actions may run afterwards",
         ["x86-TSO hardware for native runs; weak-memory outcomes only as far as Miri's emulation produces them",
          "canary monitor relies on the harness action being the registered action (it is)"]),
     "floor": floor_counters(unregister_called_with_action_in_flight=1, nested_dispatches=1),
@@ -152,6 +157,7 @@ def c02_steps(tier, seed):
         native("reg-shared-delay", ["w_reg", "--mode", "sharedlog", "--phase", "delay", "--rounds", rounds, "--seed", seed + 300]),
         native("reg-shared-raise", ["w_reg", "--mode", "sharedlog", "--phase", "raise", "--rounds", rounds, "--seed", seed + 400]),
         miri("registry-miri", "m_registry", ["--shape", seed + 3], 16 if q else 384, timeout=400 if q else 3600),
+        native("reg-owner-istep", ["w_reg", "--mode", "owner", "--phase", "istep", "--killers", 0, "--rounds", 8 if q else 160, "--ops", 80, "--seed", seed + 500], timeout=300 if q else 2400),
     ]
 
 
@@ -165,7 +171,8 @@ PLANS["C02"] = {
         "distinct = distinct (signal, #candidates, which candidate was run, run-list length, nested?, window size) tuples; "
         "second mode: 3 mutators share 2 signals (every action has one owner thread): per bracket nothing twice, nothing of another "
         "signal, must-run (registration returned before ENTER, removal not called before EXIT), must-not-run (removal returned before "
-        "ENTER / registration called after EXIT) and real-time registration order of the actions that ran",
+        "ENTER / registration called after EXIT) and real-time registration order of the actions that ran; "
+        "instruction-step phase: the delivery is nested on the owner at the k-th instruction after a writer-side hook site of its own call",
         ["exactness of 'some instant' is limited to single-owner signals; shared signals get the must-run / must-not-run / order rules"]),
     "floor": floor_counters(c02_nontrivial_brackets=50, c02_nested_brackets=1),
 }
@@ -184,6 +191,8 @@ def c06_steps(tier, seed):
         chan("chan-nest", "nest", 6000 if q else 100000, seed),
         chan("chan-park", "park", 30 if q else 1500, seed),
         chan("chan-signal", "signal", 1500 if q else 100000, seed + 7),
+        chan("chan-starve", "starve", 2000 if q else 20000, seed + 9),
+        native("chan-istep", ["w_step", "--mode", "chan", "--shards", 16, "--stride", 6 if q else 1, "--seed", seed], timeout=600),
     ]
     st.append(miri("chan-miri-q", "m_channel", ["--shape", 3 * seed + 1], 16 if q else 256, timeout=400 if q else 3000))
     if not q:
@@ -193,7 +202,9 @@ def c06_steps(tier, seed):
 
 CHAN_RULE = ("cases = short channel histories on a fresh Channel (1-4 producers x 3-10 sends, 1-3 consumers, optional nested "
              "operation batch injected at a CH_* failpoint, optional real-signal sender whose action sends on the same channel, "
-             "threads parked inside send/recv holding indices), every history closed by a final drain and the channel's drop and "
+             "threads parked inside send/recv holding indices, one operation made to lose its compare-exchange 1..12 times in a row, "
+             "a nested batch at the k-th instruction of every window between two hook arrivals of a send / recv (single-stepped)), "
+             "every history closed by a final drain, a capacity probe (five sends into the empty channel must come back) and the channel's drop and "
              "checked offline against the bad patterns (invented / duplicate / FIFO order / empty-although-nonempty / "
              "unjustified discard / lost / drop count / cell section overlap); non-trivial = history with overlapping operations, "
              "nested operations or a discarded send; distinct = distinct fingerprints of (thread, op, empty?) sequences in call order")
@@ -245,6 +256,8 @@ def c08_steps(tier, seed):
         chan("chan-park", "park", 60 if q else 3000, seed),
         chan("chan-signal", "signal", 2500 if q else 100000, seed + 11),
         chan("chan-random", "random", 1000 if q else 50000, seed + 12),
+        chan("chan-starve", "starve", 1000 if q else 20000, seed + 13),
+        native("chan-istep", ["w_step", "--mode", "chan", "--shards", 16, "--stride", 6 if q else 1, "--seed", seed + 1], timeout=600),
     ]
     if not q:
         st += [miri("chan-miri-%d" % sh, "m_channel", ["--shape", sh + 8 * seed], 128, timeout=2000) for sh in range(0, 8)]
@@ -258,10 +271,12 @@ PLANS["C08"] = {
         "injection points = (channel failpoint site x occurrence 1..4 x nested batch kind {send, recv, 5 sends, 5 recvs, send+recv, "
         "recv+send, 6 sends} x prefill 0..5 x shape) run as a nested operation on the same thread (panics caught, CAS-loop "
         "iterations counted against loop executions) + 1..5 threads parked inside send/recv each holding an index while a free "
-        "thread must finish every loop in one iteration + real signals whose action sends, nested at arbitrary instructions; "
+        "thread must finish every loop in one iteration + real signals whose action sends, nested at arbitrary instructions + "
+        "a nested batch at the k-th instruction of every window between two hook arrivals of send / recv (the thread single-steps itself, all k) + "
+        "1..12 consecutive lost compare-exchanges forced on one loop; "
         "distinct = distinct history fingerprints / (k, where parked, prefill) tuples",
         ["spurious weak-CAS failures do not exist on x86: they are covered only by the Miri runs of the thorough tier",
-         "instruction boundaries = the 8 hook sites deterministically, arbitrary instructions statistically (real signals)"],
+         "instruction boundaries: every instruction of send / recv between the hook arrivals in the thorough tier (every 6th in quick), by single-stepping"],
         exhaustive=lambda tier: False),
     "floor": floor_counters(nested_batches_run=100, park_checks=100),
 }
@@ -273,13 +288,20 @@ ITER_RULE = ("cases = stable points: after each burst of sigqueue'd signals (uni
              "IT_PS_*/IT_HAS_BEFORE_READ/EX_LOAD; add_signal from another thread mid-run) the harness waits until nothing is pending, "
              "no dispatch bracket is open, the self-pipe is empty (FIONREAD) and the consumer is blocked in read/poll according to "
              "/proc, then checks the log; instances cover {SignalOnly, WithRawSiginfo, WithOrigin} x {wait, forever, forever re-created after every item, wait + a second pending() batch drained by a helper thread, poll_signal}; "
-             "distinct = distinct (instance kind, Director phase, burst class) and (instance kind, site at which a delivery nested)")
+             "distinct = distinct (instance kind, Director phase, burst class) and (instance kind, site at which a delivery nested); "
+             "instruction-step sweep: the consumer single-steps itself through the scan of the signal's slot (every window between two hook "
+             "arrivals, all three exfiltrators, slot empty / set / two records queued) and at the k-th instruction, for every k, a real delivery "
+             "of that signal is nested on it (C09, C10) or a helper thread drains a second Pending batch of the same instance completely (C10); "
+             "afterwards every delivery whose store began is reported by a later yield of that scan or, with a wake-up byte outstanding, of the next one")
 
 
 def iter_steps(tier, seed, extra=0):
     q = tier == "quick"
     n = 2 if q else 12
-    return [native("iter-%d" % i, ["w_iter", "--instances", 15, "--rounds", 30 if q else 300, "--seed", seed * 100 + i + extra],
+    step = [native("scan-istep", ["w_step", "--mode", "scan", "--shards", 16, "--seed", seed + extra], timeout=600)]
+    if extra:
+        step.append(native("dual-istep", ["w_step", "--mode", "dual", "--shards", 16, "--seed", seed + extra], timeout=600))
+    return step + [native("iter-%d" % i, ["w_iter", "--instances", 15, "--rounds", 30 if q else 300, "--seed", seed * 100 + i + extra],
                    timeout=300 if q else 1800) for i in range(n)] + \
            ([] if q else [asan("iter-asan", ["w_iter", "--instances", 15, "--rounds", 60, "--seed", seed + 5 + extra], leaks=False, timeout=1800)])
 
@@ -290,7 +312,7 @@ PLANS["C09"] = {
                          "after its add_signal returned has a yield stamped after that delivery's DISPATCH_ENTER",
                          ["'eventually obtains' is restated as 'never in the stable lost state at a quiescent point'",
                           "the stable state is decided from /proc thread state + FIONREAD + SigPnd, not from elapsed time"]),
-    "floor": floor_counters(stable_points_checked=100, deliveries_nested_on_consumer=20, add_signal_midrun=3),
+    "floor": floor_counters(stable_points_checked=100, deliveries_nested_on_consumer=20, add_signal_midrun=3, step_trials_fired=1000),
 }
 
 PLANS["C10"] = {
@@ -300,7 +322,7 @@ PLANS["C10"] = {
                          "action took of the delivery with the same seq, no record twice, records of one signal in delivery order",
                          ["deliveries are counted from DISPATCH_ENTER of every bracket of that signal, an upper bound that is exact for "
                           "signals watched since construction"]),
-    "floor": floor_counters(records_compared_bytewise=100, yields=500),
+    "floor": floor_counters(records_compared_bytewise=100, yields=500, step_trials_fired=2000, helper_scans=500),
 }
 
 # ------------------------------------------------------------------------------------------- C11
